@@ -12,6 +12,7 @@ import PgProofs.C05Keys
 import PgProofs.C05Str
 import PgProofs.C05Nested
 import PgProofs.C05Paths
+import PgProofs.C05Typed
 namespace Pg.C05
 
 /-! ## T-SIG: value specs can be rebuilt from what `to_json` emits -/
@@ -162,6 +163,86 @@ theorem C05_key_codec_counterexample :
     encKey (.s "n_:5".toList) = encKey (.i 5) ∧ Key.s "n_:5".toList ≠ Key.i 5 := by
   refine ⟨?_, by decide⟩
   simp [encKey, intKeyPrefix, reprInt, natDigits, digitChar]
+
+/-! ## Stand-alone typed containers (F11d, F11e) -/
+
+/-- F11e, for every stand-alone typed dict: a key whose field is frozen, or whose value is MISSING
+(partial dict), is absent from what `from_json (to_json d)` returns — the schema branch of
+`sym_jsonify` hides it and no class schema puts it back. -/
+theorem C05_typed_dict_drops (env : ClassEnv) (ap : Bool) (d : TypedDict) (k : Str)
+    (hk : ∀ p ∈ d.items, p.1 = k → (frozenNames d.fields).contains k = true ∨ isMissing p.2 = true)
+    (hnt : typeKey ∉ d.items.map (·.1))
+    (t : Tree) (h : fromJson env ap (d.toJson env) = .ok t) :
+    ∃ kvs, t = .dict kvs ∧ tlookup k kvs = none := by
+  unfold fromJson at h
+  split at h
+  · have hno : jlookup (.s typeKey) (toJsonA env (frozenNames d.fields) d.items) = none := by
+      apply jlookup_none_of_not_mem
+      intro hm
+      obtain ⟨q, hq, e⟩ := List.mem_map.mp hm
+      obtain ⟨k', ek, hk'⟩ := toJsonA_keys env (frozenNames d.fields) d.items q hq
+      rw [ek] at e
+      injection e with e
+      exact hnt (e ▸ hk')
+    simp only [TypedDict.toJson, fromJ, hno] at h
+    cases hkv : fromJKV env ap (toJsonA env (frozenNames d.fields) d.items) with
+    | error e => simp [hkv] at h
+    | ok ts =>
+      simp only [hkv] at h
+      injection h with h
+      refine ⟨ts, h.symm, ?_⟩
+      apply tlookup_none_of_not_mem
+      rw [fromJKV_keys env ap _ ts hkv]
+      exact toJsonA_dropped env (frozenNames d.fields) k d.items hk
+  · cases h
+
+def fieldX : Field := { name := ['x'], kind := .int, noneable := false, default := none, frozen := false }
+def fieldY : Field := { name := ['y'], kind := .int, noneable := false, default := some (.leaf (.int 5)), frozen := true }
+def fieldZ : Field := { name := ['z'], kind := .int, noneable := false, default := some (.leaf (.int 3)), frozen := false }
+
+/-- `pg.Dict(x=1, value_spec=Dict([('x', Int()), ('y', Int().freeze(5))]))` -/
+def typedFrozen : TypedDict := ⟨[fieldX, fieldY], [(['x'], .leaf (.int 1)), (['y'], .leaf (.int 5))]⟩
+/-- `pg.Dict.partial(z=2, value_spec=Dict([('x', Int()), ('z', Int(default=3))]))` -/
+def typedPartial : TypedDict := ⟨[fieldX, fieldZ], [(['x'], .leaf .missing), (['z'], .leaf (.int 2))]⟩
+
+/-- "A typed dict loads back with the same key → value content" … -/
+def C05_typed_roundtrip_Full : Prop :=
+  ∀ (env : ClassEnv) (ap : Bool) (d : TypedDict) (t : Tree), fromJson env ap (d.toJson env) = .ok t →
+    ∃ kvs, t = .dict kvs ∧ ∀ k, tlookup k kvs = tlookup k d.content
+
+/-- … is false (F11e): the frozen field `y = 5` is in the original and not in the loaded dict. -/
+theorem C05_typed_roundtrip_counterexample : ¬ C05_typed_roundtrip_Full := by
+  intro hfull
+  have hload : fromJson noClasses false (typedFrozen.toJson noClasses) = .ok (.dict [(.s ['x'], .leaf (.int 1))]) := by
+    simp [fromJson, TypedDict.toJson, typedFrozen, toJsonA, frozenNames, fieldX, fieldY, isMissing, toJson,
+      atomJ, resolveOk, resolveOkKV, jlookup, typeKey, fromJ, fromJKV]
+  obtain ⟨kvs, e, hk⟩ := hfull noClasses false typedFrozen _ hload
+  injection e with e
+  have := hk ['y']
+  rw [← e] at this
+  simp [tlookup, TypedDict.content, typedFrozen] at this
+
+/-- F11e, the partial case: `x = MISSING` is dropped, the loaded dict is `{z: 2}`. -/
+theorem C05_typed_partial_loads :
+    fromJson noClasses true (typedPartial.toJson noClasses) = .ok (.dict [(.s ['z'], .leaf (.int 2))]) := by
+  simp [fromJson, TypedDict.toJson, typedPartial, toJsonA, frozenNames, fieldX, fieldZ, isMissing, toJson,
+    atomJ, resolveOk, resolveOkKV, jlookup, typeKey, fromJ, fromJKV]
+
+/-- F11d: the value spec is not part of the JSON. The original rejects a write to an unknown key
+(KeyError) and an ill-typed write (TypeError); what is loaded is a schema-less `pg.Dict` (`Tree.dict`
+carries no spec), on which every `d[k] = v` succeeds. Likewise for a typed list. -/
+theorem C05_typed_spec_lost :
+    typedFrozen.set "nope".toList (.leaf (.int 1)) = .error .key ∧
+    (typedFrozen.set ['x'] (.leaf (.str ['s']))).toOption.isNone = true ∧
+    (∃ kvs, fromJson noClasses false (typedFrozen.toJson noClasses) = .ok (.dict kvs)) ∧
+    (∃ l' : TypedList, l' = ⟨.int, some 3, [.leaf (.int 1), .leaf (.int 2)]⟩ ∧
+      (l'.append (.leaf (.str ['z']))).toOption.isNone = true ∧
+      fromJson noClasses false (l'.toJson noClasses) = .ok (.list [.leaf (.int 1), .leaf (.int 2)])) := by
+  refine ⟨by rfl, by rfl, ⟨[(.s ['x'], .leaf (.int 1))], ?_⟩, ⟨_, rfl, by rfl, ?_⟩⟩
+  · simp [fromJson, TypedDict.toJson, typedFrozen, toJsonA, frozenNames, fieldX, fieldY, isMissing, toJson,
+      atomJ, resolveOk, resolveOkKV, jlookup, typeKey, fromJ, fromJKV]
+  · simp [fromJson, TypedList.toJson, toJsonL, toJson, atomJ, resolveOk, resolveOkL, fromJ, fromJL,
+      jisTupleMarker]
 
 /-! ## Stores -/
 
